@@ -31,8 +31,6 @@ def _archive_hex(meta, case):
 
 
 def _key_for(tag, what="decode"):
-    if tag in ("trunc-after-len", "zero-section"):
-        return "eof-inside-section"          # F-C12: io.EOF after the first byte of a section taken for a clean end
     if tag.startswith("trunc"):
         return "truncation-mismatch"
     if tag.startswith("flip"):
@@ -79,9 +77,10 @@ def check(run):
             run.notes.append("case file failed to evaluate: %s: %s" % (os.path.basename(f), log[-400:]))
             continue
         meta = json.load(open(f[:-2] + ".json"))
-        for cid in r:
+        for code in r:
             nmis += 1
-            if cid >= 1000000:
+            kind, cid = code // 1000000, code % 1000000
+            if kind == 3:
                 enc_ok = False
                 run.violation("encode-mismatch",
                               "car.Encode output differs from the model's car_encode for archive %d (%d roots, %d blocks)"
@@ -90,8 +89,17 @@ def check(run):
                 continue
             corr_ok = False
             case = meta["cases"][cid]
+            if kind == 2:
+                run.violation("message-decode-mismatch",
+                              "request/response.Decode (car.Decode -> blockstore.NewBlockReader -> message.NewMessage) returned %s "
+                              "where the model expects %s, on %s; car.Decode itself returned: %s"
+                              % ((("a message", "an error") if case["msg"] == 1 else ("an error", "a message"))
+                                 + (_describe(meta, case), case["obs"][:300])),
+                              dict(file=f, case=cid, tag=case["tag"], archive=_archive_hex(meta, case),
+                                   observed=case["obs"], message_decode=case["msg"]))
+                continue
             pm = pinned_only.get(os.path.basename(f))
-            is_fc12 = pm is not None and cid not in pm
+            is_fc12 = pm is not None and code not in pm
             run.violation("eof-inside-section" if is_fc12 else _key_for(case["tag"]),
                           "car.Decode disagrees with the proved model on %s; implementation returned: %s%s"
                           % (_describe(meta, case), case["obs"][:300],
@@ -157,11 +165,12 @@ def replay(path):
     if not ok:
         print(hlog[-2000:]); return 1
     wd = tempfile.mkdtemp(prefix="c12replay", dir=vlib.WORK)
-    rc, out, _ = vlib.run_harness(hbin, ["c12one", arch, wd])
+    rc, out, _ = vlib.run_harness(hbin, ["c12one", arch, wd] + (["msg"] if rp["replay"].get("message_decode") else []))
     print("implementation:", out.strip())
     rc2, out2, _ = vlib.coqc(os.path.join(wd, "replay_case.v"))
     mism = vlib.parse_nlist(vlib.parse_print(out2, "M"))
     print("model (repaired tree)  (header ok?, [0 = Err | 1 + data length = Ok ...]):", vlib.parse_print(out2, "model_fixed"))
     print("model (pinned tree)    :", vlib.parse_print(out2, "model_pinned"))
-    print("model agrees with implementation:", mism == [])
+    print("model agrees with implementation:", mism == [],
+          "" if mism == [] else "(1000000: car.Decode differs; 2000000: request/response.Decode verdict differs) %s" % (mism,))
     return 0 if mism == [] else 1
